@@ -357,7 +357,7 @@ def run_property(prop, tier, scen_list, per_scen, assumptions, rule, extra_jobs=
     predvals = {}
     for r in results:
         for e in r["events"]:
-            if e["op"] == "predict" and e.get("out") == "ok" and e.get("nfinite", 0) > 0:
+            if e["op"] == "predict" and e.get("out") == "ok" and e.get("nfinite", 0) > 0 and e.get("pvaries", True):
                 predvals.setdefault((r["tid"], e["s"]), {})[e["d"].split("/")[-1].split(":")[1]] = e["val"]
     inj_bad = sum(1 for v in predvals.values() if len(v) > 1 and len(set(v.values())) < len(v))
     if inj_bad:
